@@ -41,7 +41,7 @@ theorem finish3_split (E : Ext α) (ax ay az : Axis α) (nm : Norm α) (c : Nat 
   have f2 := fact_ne (α := α) (n / 4 % 4)
   have f3 := fact_ne (α := α) (n % 4)
   simp only [finish3, finish2, polyDeriv3_split, sum4, h1, h2, Norm.noOffset, add_zero, ite_self, Nat.cast_mul]
-  split_ifs <;> (field_simp; ring)
+  split_ifs <;> field_simp <;> ring
 
 theorem denorm3 (E : Ext α) (hp : ∀ x n, E.powi x n = x ^ n) (ax ay az : Axis α) (nm : Norm α) (c : Nat → α)
     (p : α × α × α) :
